@@ -193,3 +193,59 @@ Theorem C14_create_rules :
   (forall lo : bool, lrun false [LOpen lo; LOpen true] = [open_decision false lo; Refused]).
 Proof. exact create_rules. Qed.
 Print Assumptions C14_create_rules.
+
+(** ** Where the local data lives
+
+    [CreateDBOptions.Directory] unset / the instance's own directory / another directory on every
+    Create and Open, instances on disk and in memory ([Address.dop], [Address.drun]).  Switch
+    [fb] (first argument of [drun]) = a local-only Open given another directory also looks where
+    Create records the database (true = the code as it stands, [c14_open_falls_back_current]). *)
+
+(** The Directory options are irrelevant to every decision: the decisions of any sequence of
+    operations are those of the sequence with every option removed; on disk closing the handles
+    changes nothing; and without options and closing the table is the plain one. *)
+Theorem C14_directory_irrelevant :
+  (forall (memory : bool) (ops : list dop) (have : bool),
+      drun true memory have ops = drun true memory have (map undir ops)) /\
+  (forall (fb have : bool) (ops : list dop),
+      drun fb false have (DCloseAll :: ops) = Proceeds :: drun fb false have ops) /\
+  (forall (fb memory : bool) (ops : list lop) (have : bool),
+      drun fb memory have (map dop_of_lop ops) = lrun have ops).
+Proof. exact (conj dir_irrelevant (conj dir_close_on_disk dir_plain_table)). Qed.
+Print Assumptions C14_directory_irrelevant.
+
+(** An instance in memory: while a handle is open the rules are those of an instance on disk
+    (a second create without overwrite is refused, one with overwrite proceeds, a local-only open
+    proceeds); once the handles are closed nothing of the database is left - a local-only open is
+    refused and the database can be created again - whatever the Directory options. *)
+Theorem C14_create_rules_memory :
+  forall (fb have ow : bool) (d1 d2 d3 d4 d5 : dopt),
+    drun fb true have [DCreate ow d1; DCreate false d2; DCreate true d3; DOpen true DUnset; DCloseAll;
+                       DOpen true d4; DCreate false d5]
+    = [create_decision have ow; Refused; Proceeds; Proceeds; Proceeds; Refused; Proceeds].
+Proof. exact dir_memory_rules. Qed.
+Print Assumptions C14_create_rules_memory.
+
+(** The table satisfies the property as the correspondence check states it on observed outcomes
+    ([dlocal_ok]: refusals exactly for databases created here and not overwritten, local-only
+    opens find what was created here) for EVERY sequence of operations and Directory options, on
+    disk and in memory. *)
+Theorem C14_directory_table_sound :
+  forall (memory : bool) (ops : list dop) (have seen : bool),
+    (have = true -> seen = true) ->
+    dlocal_ok memory have seen ops (map decision_code (drun true memory have ops)) = true.
+Proof. exact dir_spec_sound. Qed.
+Print Assumptions C14_directory_table_sound.
+
+(** Before the repair of Open a database created with a Directory option other than the
+    instance's directory was not found by a local-only Open given the SAME option (Create records
+    the database in the instance directory, Open looked in the option's), which the property
+    rejects.  Regression witness. *)
+Theorem C14_refuted_open_custom_directory :
+  forall (memory ow : bool) (k : N),
+    let ops := [DCreate ow (DOther k); DOpen true (DOther k)] in
+    drun false memory false ops = [Proceeds; Refused] /\
+    dlocal_ok memory false false ops (map decision_code (drun false memory false ops)) = false /\
+    drun true memory false ops = [Proceeds; Proceeds].
+Proof. exact dir_refuted_no_fallback. Qed.
+Print Assumptions C14_refuted_open_custom_directory.
